@@ -245,8 +245,9 @@ fn main() {
     let mut cs = Cases::new(&a.out, "Generated C15_Model");
     let mut sm = Summary::default();
     sm.rule = "random lists of 1-9 csp rules (8 fixed + 16 composed directives incl. case twins, blanket `csp`, exceptions with and without directive, tags, domain=, party, important, badfilter, duplicates and exception twins) mixed with ordinary rules, random enabled tag sets, optimised or not, x requests of all 19 type strings (half of them document/subdocument) on 4 hosts; non-trivial = document/subdocument request with at least one matching active csp rule".into();
-    let n = 1600 * a.scale;
+    let n = 3000 * a.scale;
     let mut mask_seen: BTreeSet<u32> = BTreeSet::new();
+    let mut all: Vec<Case> = vec![];
     for _ in 0..n {
         let rules = gen_rules(&mut r);
         let url = if r.chance(1, 5) { gen::url_for(&mut r, &rules[0]) } else { gen_url(&mut r) };
@@ -259,7 +260,31 @@ fn main() {
                 tags.push(t.to_string());
             }
         }
-        let c = Case { rules, tags, url, source, ty: ty.to_string(), optimize: r.chance(2, 3) };
+        all.push(Case { rules, tags, url, source, ty: ty.to_string(), optimize: r.chance(2, 3) });
+    }
+    // exhaustive sweep: every subset of 8 csp rules on one host x tag state x request type
+    let universe = [
+        "||foo.com^$csp=a",
+        "||foo.com^$csp=b",
+        "@@||foo.com^$csp=a",
+        "@@||foo.com^$csp=b",
+        "@@||foo.com^$csp",
+        "||foo.com^$csp",
+        "||foo.com^$csp=c,tag=t1",
+        "@@||foo.com^$csp=b,tag=t1",
+    ];
+    let types: &[&str] = if a.scale > 1 { &["document", "subdocument", "script", "xhr", "other"] } else { &["document", "script"] };
+    for mask in 0..256u32 {
+        for tagged in [false, true] {
+            for ty in types {
+                let rules: Vec<String> = universe.iter().enumerate().filter(|(i, _)| mask & (1 << i) != 0).map(|(_, l)| l.to_string()).collect();
+                let tags = if tagged { vec!["t1".to_string()] } else { vec![] };
+                all.push(Case { rules, tags, url: "https://foo.com/page".into(), source: "https://foo.com/".into(), ty: ty.to_string(), optimize: mask % 2 == 0 });
+            }
+        }
+    }
+    sm.extra.insert("exhaustive_sweep".into(), json!(format!("all 256 subsets of {} csp rules on one host x tag t1 on/off x {} request types", universe.len(), types.len())));
+    for c in all {
         if !c.url.is_ascii() || c.url.contains('*') {
             cs.stat("skipped_url_outside_domain");
             continue;
